@@ -376,6 +376,22 @@ def run(ctx):
         reported = True
     ctx.coverage["direct_failures"] = [{"case": cid, "kind": k} for cid, k, _ in direct[:20]]
 
+    # (1b) history: one SBC instance reused (same atoms with another periodicity, other radii / thresholds first).  The answer
+    # must be the function of (structure, parameters, seed) that a fresh SBC() computes.
+    from props import sbc_gen as _SG
+    rcases, rrows = _SG.reuse_stream(ctx.rng, quick)
+    rbad = [r for r in rrows if r.get("same_as_fresh") is False]
+    ctx.add_cases(len(rrows), sum(1 for r in rrows if "error" not in r))
+    ctx.coverage["sbc_instance_reuse"] = {"sequences": len(rrows), "errors": sum(1 for r in rrows if "error" in r), "differences": rbad[:5]}
+    for r in rbad[:1]:
+        rc = [c for c in rcases if c["id"] == r["id"]][0]
+        ctx.violation({"kind": "property-fails-on-implementation", "failure": "not a function of (structure, parameters, seed)",
+                       "history": "sbc = SBC(); sbc.get_clusters(structure with pbc=alt_pbc, **kwargs); for pk in prior: sbc.get_clusters(structure, **pk); "
+                                  "clusters = sbc.get_clusters(structure, **kwargs) differ from SBC().get_clusters(structure, **kwargs)",
+                       "structure": rc["structure"], "alt_pbc": rc["alt_pbc"], "kwargs": rc["kwargs"], "prior": rc["prior"], "detail": r,
+                       "broken_obligation": broken or None}, found_input=True)
+        reported = True
+
     # (2) correspondence / contract / proof broke but the property's predicate held on every input tried
     corr = [(cid, "agree_run (model vs implementation stage snapshots)") for cid in corr_fail] + \
            [(cid, "front_end (ValueError iff zero vector on a periodic axis)") for cid in fe_fail] + \
